@@ -69,7 +69,18 @@ pub fn main(args: &[String], w: &mut dyn Write) {
     let p = MarkdownParser::new(mk, &["scrut"], Some(TestCaseConfig::empty()));
     for i in 0..(count / nsh) {
         let c = gen_cfg(&mut r);
-        if i % 5 == 4 {
+        if i % 11 == 10 {
+            // TestCaseConfig::diff and with_defaults_from as functions, for arbitrary second configurations (also with environment)
+            let d = gen_cfg(&mut r);
+            let mut c = c;
+            if r.chance(1, 2) { c.timeout = d.timeout; } if r.chance(1, 2) { c.wait = d.wait.clone(); } if r.chance(1, 2) { c.skip_document_code = d.skip_document_code; }
+            if r.chance(1, 2) { for (k, v) in d.environment.iter() { if r.chance(1, 2) { c.environment.insert(k.clone(), v.clone()); } } }
+            let res = std::panic::catch_unwind(std::panic::AssertUnwindSafe(|| { let x = c.diff(&d); (show(&x), show(&x.with_defaults_from(&d)), show(&c.with_defaults_from(&d))) }));
+            match res {
+                Ok((a, b, e)) => writeln!(w, "Y 4 {}|{}|{}|{}|{}", show(&c), show(&d), a, b, e).unwrap(),
+                Err(_) => writeln!(w, "Y 4 {}|{}|panic|-|-", show(&c), show(&d)).unwrap(),
+            }
+        } else if i % 5 == 4 {
             // the generator path (create / update --convert): the block header carries only what differs from the defaults of
             // the format; read back with those defaults the test case has the configuration it was generated from
             let mut c = c;
